@@ -120,6 +120,13 @@ func TestC14(t *testing.T) {
 				P + " [{k: t1()}, [t2()], {k: [t3()]}];\n",
 				// operations that fail once their operands have been evaluated: every operand still runs, in order, first
 				P + " id2(t1(), t2(), t3());\n",
+				P + " pf(t1(), t2());\n" + P + " t3();\n",
+				P + " " + bn.BClock + "(t1(), t2());\n" + P + " t3();\n",
+				"pf(t1());\n",
+				// a repeated property name whose last initialiser is a plain literal: the earlier ones still run
+				"x = {a: t1(), b: t2(), a: 7};\n" + P + " x.a;\n" + P + " t3();\n",
+				"x = {a: t1(), a: \"s\", b: t2(), a: nil};\n" + P + " x.b;\n",
+				"x = {k: (obj.k = t1()), m: 1, k: 2};\n" + P + " obj.k;\n" + P + " x.k;\n",
 				P + " id3(t1(), t2());\n" + P + " t3();\n",
 				P + " 5(t1(), t2(), t3());\n",
 				P + " t1()(t2(), t3());\n",
